@@ -226,6 +226,9 @@ pub fn pygen(out_path: &str, tier: Tier, seed: u64) -> i32 {
         let cfg = cfg_for(&mut r, i, &hosts, 0.0, &GenOpts { nonconvex: false, fracs: true, odd_weights: true, max_dim: 3 }, 600, 0.0);
         i += 1;
         let mut sc = make_scenario(&mut r, &cfg);
+        if cfg.host == Hostility::InvalidStart && r.bool(0.4) {
+            sc.problem.put_goal_on_start();
+        }
         if !pythonise(&mut sc) {
             continue;
         }
